@@ -330,6 +330,7 @@ def run(ck):
                          {"kind": "history", "ops": json.loads(json.dumps(h, default=str))}, found_input=False)
     gate_eq_oracle(ck)
     gate_inverse_oracle(ck)
+    sharing_oracle(ck)
     clifford_oracle(ck, tables_ok)
     threshold_oracle(ck)
 
@@ -392,6 +393,55 @@ def gate_inverse_oracle(ck):
                     ck.violation("C09/Gate.inverse/%s" % cls, "%r followed by its inverse %r is not the identity (distance up to phase %.3g)%s" % (
                                  g, gi, d, "" if repr(g) == before else "; operand modified"),
                                  {"kind": "gate_inverse", "name": name, "target": target, "control": control, "theta": th})
+
+
+def sharing_oracle(ck):
+    """Out-of-place results must not share observable state with their operands or inside themselves: after
+    c*n, c+d, Circuit()+c, copy, inverse, stack, split, an in-place pass / re-indexing on the result must leave every
+    other circuit unchanged and give what it gives on the same circuit made of fresh Gate objects (harness C11.alias_probe).
+    A product whose repetitions share Gate objects merges RZ(t)^3 to RZ(4t); an operand returned as the result is
+    rewritten by the next in-place call."""
+    from tangelo.linq import Circuit
+    from tangelo.linq import circuit as cmod
+    rng = ck.rng
+    ck.stream("object-sharing", "random rotation-dense circuits x out-of-place operation (repeat 2/3, concat, concat with empty, copy, inverse, "
+              "stack, split) x in-place probe (reindex, merge, redundant, simplify, trim, add_gate): other circuits unchanged, result "
+              "equal to the probe on fresh objects; non-trivial = circuit has a parameterized gate")
+    rot = LC.ONE_Q_ROT + LC.CTRL_ROT + ["H", "X", "CNOT"]
+    for _ in range(40 if ck.tier == "quick" else 600):
+        n = rng.randint(1, 3)
+        specs = LC.rand_gate_list(rng, n, rng.randint(1, 4), [x for x in rot if n > 1 or not x.startswith("C")], max_controls=1, var_p=0.0)
+        if rng.random() < 0.3:
+            specs = LC.embed_specs(specs, LC.sparse_embedding(rng, n, max_index=12))
+        for opname in ("repeat2", "repeat3", "concat", "concat-empty-left", "concat-empty-right", "copy", "inverse", "stack", "split"):
+            try:
+                c = Circuit([LC.make_gate(sp) for sp in specs])
+                d = Circuit([LC.make_gate(sp) for sp in specs[:2]])
+                store = [c, d]
+                if opname == "repeat2":
+                    store.append(c * 2)
+                elif opname == "repeat3":
+                    store.append(c * 3)
+                elif opname == "concat":
+                    store.append(c + d)
+                elif opname == "concat-empty-left":
+                    store.append(Circuit() + c)
+                elif opname == "concat-empty-right":
+                    store.append(c + Circuit())
+                elif opname == "copy":
+                    store.append(c.copy())
+                elif opname == "inverse":
+                    store.append(c.inverse())
+                elif opname == "stack":
+                    store.append(cmod.stack(c, d))
+                else:
+                    store.extend(c.split())
+            except Exception:
+                continue
+            ck.case("object-sharing", json.dumps([opname, specs], default=str), nontrivial=any(sp["k"] is not None for sp in specs),
+                    sample={"op": opname, "gates": [sp["name"] for sp in specs]}, tags=[opname])
+            for sig, desc in H11.alias_probe(store, list(range(2, len(store))), opname):
+                ck.violation(sig.replace("C11/", "C09/", 1), desc, {"kind": "sharing", "op": opname, "specs": specs})
 
 
 def clifford_oracle(ck, tables_ok=True):
